@@ -14,6 +14,7 @@ CONSTANTS TS, HSA, G, NApps,
           WithPartial,   \* explore polls that leave an incomplete telegram in the buffer
           Warm,          \* start from a station that has been admitted to a ring {WarmPS, TS, WarmNS} (fixed input prefix)
           WarmPS, WarmNS,
+          Held,          \* (with Warm) the start state additionally holds the token just received from WarmPS
           Emit           \* "none" | "state" | "edge": print schedules
 
 Me == [ts |-> TS, hsa |-> HSA, g |-> G, napps |-> NApps]
@@ -55,9 +56,11 @@ MonInit == [offers |-> {}, passes |-> 0, passTo |-> -1]
 (* station, which answers 'ready' and is in the ring (ActiveIdle) - as a fixed prefix of inputs      *)
 RxIn(rx) == [rx |-> rx, partial |-> FALSE, busy |-> FALSE, sync |-> FALSE, slot |-> FALSE, lost |-> FALSE, hold |-> TRUE, app |-> <<>>]
 QuietIn == [rx |-> <<>>, partial |-> FALSE, busy |-> FALSE, sync |-> TRUE, slot |-> FALSE, lost |-> FALSE, hold |-> TRUE, app |-> <<>>]
-WarmInputs == <<RxIn(<<Tok(WarmNS, WarmPS)>>), RxIn(<<Tok(WarmPS, WarmNS)>>), RxIn(<<Tok(WarmNS, WarmPS)>>),
+WarmInputs0 == <<RxIn(<<Tok(WarmNS, WarmPS)>>), RxIn(<<Tok(WarmPS, WarmNS)>>), RxIn(<<Tok(WarmNS, WarmPS)>>),
                 RxIn(<<Tok(WarmPS, WarmNS)>>), RxIn(<<Tok(WarmNS, WarmPS)>>), RxIn(<<Tok(WarmPS, WarmNS)>>), RxIn(<<Tok(WarmNS, WarmPS)>>),
                 RxIn(<<SReq(WarmPS, TS)>>), QuietIn>>
+(* held start: the admitted station has just been handed the token by its predecessor (UseToken) *)
+WarmInputs == IF Held THEN WarmInputs0 \o <<RxIn(<<Tok(WarmPS, TS)>>)>> ELSE WarmInputs0
 RECURSIVE RunInputs(_, _)
 RunInputs(s, ins) == IF ins = <<>> THEN s ELSE RunInputs(DoPoll(Me, s, Head(ins)).s, Tail(ins))
 
@@ -96,7 +99,7 @@ Spec == Init /\ [][Next]_vars
 
 NoPanic == st.panic = "none"
 RulesOk == viol = "none"
-WarmOk == Warm => (depth = 0 => st.fsm = "ActiveIdle")
+WarmOk == Warm => (depth = 0 => st.fsm = (IF Held THEN "UseToken" ELSE "ActiveIdle"))
 TypeOk == st.fsm \in {"Offline", "Listen", "ActiveIdle", "UseToken", "Claim", "AwaitData", "PassToken", "CheckPass", "AwaitStatus"}
           /\ st.ring.lst \in LasStates /\ st.ring.ns \in 0..127 /\ st.ring.ps \in 0..127
 View == <<st, depth, mon, viol>>
